@@ -1,6 +1,8 @@
 CONSTANTS
   Protos = {"bolt", "http1"}
-  MaxReq = 3
+  MaxReq = 5
+  MaxInflight = 3
+  MaxDone = 5
   Defects = {}
   EmitCases = FALSE
 SPECIFICATION Spec
